@@ -10,7 +10,8 @@ use vstd::prelude::*;
 use vstd::string::*;
 use vstd::utf8::*;
 use core::result::Result;
-use crate::dekey_::{CowRef, DeError, cowref_str};
+use crate::dekey_::{CowRef, DeError, cowref_str, cowref_bytes};
+use core::ops::Range;
 use crate::memchr::memchr;
 use crate::escfn_::lemma_ascii_boundaries;
 
@@ -303,6 +304,92 @@ impl<'de, 'a> ListIter<'de, 'a> {
             }
         }
         Ok(None)
+    }
+//@end
+}
+
+// ---- the value a list (or any simple type) is read from: attribute values and text content ----
+/// std: `String::into_bytes` gives the UTF-8 bytes of the string
+pub assume_specification[ String::into_bytes ](s: String) -> (v: Vec<u8>)
+    ensures v@ == encode_utf8(s@);
+//@extract de::simple_type::SimpleTypeDeserializer | src/de/simple_type.rs :: struct SimpleTypeDeserializer | serves=C14 features=serialize
+ pub struct SimpleTypeDeserializer<'de, 'a> {
+    /// - In case of attribute contains escaped attribute value
+    /// - In case of text contains unescaped text value
+    pub content: CowRef<'de, 'a, [u8]>,
+    /// If `true`, `content` in escaped form and should be unescaped before use
+    pub escaped: bool,
+    /// Decoder used to deserialize string data, numeric and boolean data.
+    /// Not used for deserializing raw byte buffers
+    pub decoder: Decoder,
+}
+//@end
+impl<'de, 'a> SimpleTypeDeserializer<'de, 'a> {
+//@extract de::simple_type::SimpleTypeDeserializer::from_text | src/de/simple_type.rs :: impl<'de, 'a> SimpleTypeDeserializer<'de, 'a> :: fn from_text | serves=C14 features=serialize
+ pub fn from_text(text: Cow<'de, str>) -> (r: Self)
+        // C14: a text borrowed from the input (from_str) and an owned one (from_reader) give the same bytes, never escaped
+        ensures cowref_bytes(r.content) == encode_utf8(text@), !r.escaped, !(r.content is Slice),
+ {
+        let content = match text {
+            Cow::Borrowed(slice) => CowRef::Input(slice.as_bytes()),
+            Cow::Owned(content) => CowRef::Owned(content.into_bytes()),
+        };
+        Self::new(content, false, Decoder::utf8())
+    }
+//@end
+//@extract de::simple_type::SimpleTypeDeserializer::from_part | src/de/simple_type.rs :: impl<'de, 'a> SimpleTypeDeserializer<'de, 'a> :: fn from_part | serves=C14 features=serialize
+ fn from_part(
+        value: &'a Cow<'de, [u8]>,
+        range: Range<usize>,
+        escaped: bool,
+        decoder: Decoder,
+    ) -> (r: Self)
+        requires range.start <= range.end <= value@.len(),
+        // C14: the same part of an attribute value whether the event borrows (from_str) or owns (from_reader) its bytes
+        ensures cowref_bytes(r.content) == value@.subrange(range.start as int, range.end as int), r.escaped == escaped, r.decoder == decoder,
+            !(r.content is Owned),
+    {
+        proof { axiom_cow_bytes(value); }
+        let content = match value {
+            Cow::Borrowed(slice) => CowRef::Input(&slice[range]),
+            Cow::Owned(slice) => CowRef::Slice(&slice[range]),
+        };
+        Self::new(content, escaped, decoder)
+    }
+//@end
+//@extract de::simple_type::SimpleTypeDeserializer::new | src/de/simple_type.rs :: impl<'de, 'a> SimpleTypeDeserializer<'de, 'a> :: fn new | serves=C14 features=serialize
+ pub fn new(content: CowRef<'de, 'a, [u8]>, escaped: bool, decoder: Decoder) -> (r: Self)
+        ensures r.content == content, r.escaped == escaped, r.decoder == decoder
+ {
+        Self {
+            content,
+            escaped,
+            decoder,
+        }
+    }
+//@end
+//@extract de::simple_type::SimpleTypeDeserializer::decode | src/de/simple_type.rs :: impl<'de, 'a> SimpleTypeDeserializer<'de, 'a> :: fn decode | serves=C14 features=serialize n11=@decode
+    pub fn decode<'b>(&'b self) -> (r: Result<CowRef<'de, 'b, str>, DeError>)
+        // C14: ONE result however the bytes are held: their decoding, or the decoding error
+        ensures match spec_decode::<'b>(self.decoder, cowref_bytes(self.content)) {
+            Ok(c) => r matches Ok(q) && cowref_str(q) == c@,
+            Err(e) => r is Err,
+        },
+    {
+        Ok(match self.content {
+            CowRef::Input(content) => match match self.decoder.decode(content) { Ok(v__) => v__, Err(e__) => return Err(From::from(e__)) } {
+                Cow::Borrowed(content) => CowRef::Input(content),
+                Cow::Owned(content) => CowRef::Owned(content),
+            },
+            CowRef::Slice(content) => match match self.decoder.decode(content) { Ok(v__) => v__, Err(e__) => return Err(From::from(e__)) } {
+                Cow::Borrowed(content) => CowRef::Slice(content),
+                Cow::Owned(content) => CowRef::Owned(content),
+            },
+            CowRef::Owned(ref content) => match match self.decoder.decode(content) { Ok(v__) => v__, Err(e__) => return Err(From::from(e__)) } {
+                Cow::Borrowed(content) => CowRef::Slice(content),
+                Cow::Owned(content) => CowRef::Owned(content),
+            },
+        })
     }
 //@end
 }
